@@ -169,6 +169,62 @@ def check_numeric(ctx, prop, variant, blocks, moments):
                                    "model": f"DetModel({no},{nv},seed={ms})"})
 
 
+def check_transmom_assembly(ctx, spec, prop, variant, space, n, nc, na):
+    """trans_moment_space(n) for ALL Hamiltonians, operator matrices and amplitude vectors (Lean Wick model + proved checker):
+         T^(n) = pref * X_I * sum_{k+a+b+c=n} N(k) ( [b = 0] <I~(a)| d |psi(c)>  -  [nc = na] <d>_gs^(b) <I~(a)|psi(c)> )
+    with the code's operator-level intermediate states, psi and <d>_gs from recipes.py (cf. C02), N = 1/<psi|psi>."""
+    from adcgen import Expr
+    from adcgen.indices import generic_indices_from_space
+    from sympy import S
+    from props.c02 import spec_operator, spec_expectation
+    isr = prop.l_isr
+    rep = {"kind": "assembly", "request": f"{variant} trans_moment_space({n}, {space}, n_create={nc}, n_annihilate={na})"}
+    code = prop.trans_moment_space(n, space, n_create=nc, n_annihilate=na)
+    if n_fact(space) != 1:
+        ctx.skip("assembly: sqrt prefactor")
+        return
+    idx = "".join(s_.name for s_ in generic_indices_from_space(space))
+    ampl = isr.amplitude_vector(indices=idx, lr="left")
+    pieces = []
+    for k in range(n + 1):
+        for a in range(n - k + 1):
+            for c in range(n - k - a + 1):
+                b = n - k - a - c
+                bra = isr.intermediate_state(order=a, space=space, braket="bra", indices=idx)
+                if bra is S.Zero:
+                    continue
+                ket = R.psi(c, "ket", False)
+                if b == 0:
+                    pieces.append((1, ampl * bra * spec_operator(nc, na) * ket, None, k))
+                if nc == na:
+                    pieces.append((-1, ampl * bra * ket, b, k))
+    ic = X.IdxCtx(registered_zero=True)
+    sins = [(sg, sympy.expand(p), eb, k) for sg, p, eb, k in pieces]
+    for _, s_, _, _ in sins:
+        X._walk_indices(sympy.sympify(s_), ic)
+    X._walk_indices(sympy.sympify(code), ic)
+    ic.freeze()
+    expect = []
+    for sg, s_, eb, k in sins:
+        if s_ is S.Zero or (k >= 1 and not spec.norm(k)):
+            continue
+        x = R.freshen(spec.sc, R.vev(ctx, s_, ic)[0])
+        if eb is not None:
+            e0 = spec_expectation(spec, eb, nc)
+            if not e0:
+                continue
+            x = R.mul(spec.sc, x, e0)
+        if k >= 1:
+            x = R.mul(spec.sc, x, spec.norm(k))
+        expect += R.scale(x, Fraction(sg))
+    (x_code,), _ = X.export_many([(Expr(code), "auto")], ic)
+    ctx.case(("assembly", variant, space, n, nc, na), nontrivial=True)
+    ctx.count("assembly_checks")
+    r = ctx.equiv(monic(distribute(x_code)), monic(distribute(expect)), rep["request"])
+    judge(ctx, r, f"{variant} trans_moment_space({n}, {space}, ({nc},{na})) is not X_I sum N(k) (<I~(a)|d|psi(c)> - <d>(b) <I~(a)|psi(c)>) over "
+          "the code's operator-level intermediate states (Lean Wick model + proved checker)", dict(rep, code=str(code)[:600]))
+
+
 def check_mixed(ctx):
     """mixed left/right variants (Properties(l_isr, r_isr) with different ADC variants on one ground state), decided by the
     proved checker for all Hamiltonians / operator matrices / amplitude vectors:
@@ -229,6 +285,15 @@ def run(ctx):
                         check_shift(ctx, prop, variant, bi, bj, order, npart)
                     except X.Unsupported as ex:
                         ctx.skip(f"unsupported {str(ex)[:40]}")
+        if "L" in part and variant in ("pp", "ip", "ea"):
+            from props.c02 import Spec
+            spec = Spec(ctx, "mp", False)
+            nc_, na_ = {"pp": (1, 1), "ip": (0, 1), "ea": (1, 0)}[variant]
+            for n_ in range(3):
+                try:
+                    check_transmom_assembly(ctx, spec, prop, variant, MIN[variant], n_, nc_, na_)
+                except X.Unsupported as ex:
+                    ctx.skip(f"unsupported {str(ex)[:40]}")
         if "N" in part:
             check_numeric(ctx, prop, variant, blocks, moments)
     check_mixed(ctx)
